@@ -30,9 +30,20 @@ func (s *DataSemaphore) Acquire(weight dag.Metric, timeout time.Duration) bool {
 	deadline := time.Now().Add(timeout)
 	s.mu.Lock()
 	defer s.mu.Unlock()
+	var timer *time.Timer
 	for !s.tryAcquire(weight) {
-		if weight.Size > s.maxProcessing.Size || weight.Num > s.maxProcessing.Num || time.Now().After(deadline) {
+		if weight.Size > s.maxProcessing.Size || weight.Num > s.maxProcessing.Num || !time.Now().Before(deadline) {
 			return false
+		}
+		if timer == nil {
+			// cond.Wait has no deadline on its own: wake up the waiters when the timeout expires,
+			// otherwise the call returns only if somebody else releases or terminates
+			timer = time.AfterFunc(time.Until(deadline), func() {
+				s.mu.Lock()
+				s.cond.Broadcast()
+				s.mu.Unlock()
+			})
+			defer timer.Stop()
 		}
 		s.cond.Wait()
 	}
